@@ -30,10 +30,12 @@ THEOREMS = ['C12_expand_shorthand', 'C12_interpolates_evenly_spaced',
             'C12_converted_iff_nonzero', 'C12_data_card_max_zero',
             'C12_chain_zero_iff', 'C12_option_tokens_app',
             'C12_last_value_app', 'C12_like_written_zero_iff',
+            'C12_like_written_local_zero_iff',
             'C12_cell_card_zero_iff',
             'C12_plain_card_zero_iff', 'C12_conv_keys_not_skipped',
             'C12_written_volumes', 'C12_generated_converted_iff',
-            'C12_imp_card_text',
+            'C12_imp_card_text', 'C12_void_card_text',
+            'C12_nonvoid_card_text', 'C12_like_card_text',
             'C12_parse_deck_text_split']
 TRUSTED = [
     'hand-written model coq/C12/Model.v + Text.v (modelled, tied by '
@@ -156,10 +158,12 @@ def c_expand_out(out):
     return f'(Ok ({vals}, {cnat(out[2])}))'
 
 
-def expand_ties(res, rng, n_valid, n_bad):
+def expand_ties(res, rng, n_valid, n_bad, max_exhaustive=2):
     cases, meta = [], []
-    for i in range(n_valid + n_bad):
-        toks, expected, fault = gen_expand_case(rng, i >= n_valid)
+    todo = [gen_expand_case(rng, i >= n_valid) for i in range(n_valid + n_bad)]
+    todo += [(toks, None, 'exhaustive') for k, toks in exhaustive_expand()
+             if k <= max_exhaustive]
+    for toks, expected, fault in todo:
         out = impl_expand(toks, expected)
         tables = g.c_tables(toks, {})
         cases.append(cpair(tables, clist(cstr(t) for t in toks),
@@ -482,18 +486,23 @@ def point_failures(cells, t4):
     return out
 
 
-FILL_UNIVERSES = [
-    # (universe, cell lines (id, geometry), surface lines)
-    (5, [(201, '-90'), (202, '90')], ['90 px 0']),
-    (6, [(211, '-91')], ['91 so 1000']),
-    (7, [(221, '-92 93'), (222, '92'), (223, '-93')], ['92 py 0.3', '93 py -0.3']),
-]
+FILL_UNIVERSES = {
+    # universe: (cells (id, geometry, extra options), surface lines, universes needed)
+    5: ([(201, '-90', ''), (202, '90', '')], ['90 px 0'], []),
+    6: ([(211, '-91', '')], ['91 so 1000'], []),
+    7: ([(221, '-92 93', ''), (222, '92', ''), (223, '-93', '')],
+        ['92 py 0.3', '93 py -0.3'], []),
+    # nested: a cell of universe 8 is itself FILLed with universe 6
+    8: ([(231, '-90', 'fill=6'), (232, '90', '')], ['90 px 0'], [6]),
+    9: ([(241, '-92', 'FILL 5'), (242, '92', 'fill=6')], ['92 py 0.3'], [5, 6]),
+}
 
 
 def gen_fill_deck(rng):
     '''A level-0 deck (no LIKE cells: regions are pairwise disjoint) in which
     one or two cells, of zero or non-zero importance, are FILLed with a small
-    universe; importances from cell cards, data cards (with shorthand) or both.'''
+    universe (sometimes with a nested FILL inside); importances from cell
+    cards, data cards (with shorthand) or both.'''
     deck = gen_deck(rng, level0=True, malformed=False, like=False)
     level0 = list(deck['cells'])
     victims = rng.sample(level0, rng.choice([1, 1, 2]))
@@ -501,20 +510,29 @@ def gen_fill_deck(rng):
     zeros = [c for c in level0 if c['zero']]
     if zeros and rng.random() < 0.7 and not any(v['zero'] for v in victims):
         victims[0] = rng.choice(zeros)
-    extra_surfs = []
     for cell in level0:
         cell['level0'] = True
-    used = rng.sample(FILL_UNIVERSES, len(victims))
-    for victim, (univ, ucells, usurfs) in zip(victims, used):
+    used = rng.sample(sorted(FILL_UNIVERSES), len(victims))
+    needed, todo = [], list(used)
+    while todo:
+        univ = todo.pop()
+        if univ not in needed:
+            needed.append(univ)
+            todo.extend(FILL_UNIVERSES[univ][2])
+    deck['nested'] = any(FILL_UNIVERSES[u][2] for u in used)
+    extra_surfs = []
+    for victim, univ in zip(victims, used):
         kw = g.case_mix('fill', rng) + rng.choice(['=', ' ', ' = '])
         victim['opts'] = (victim['opts'] + ' ' + kw + str(univ)).strip()
         victim['filled'] = True
-        extra_surfs.extend(usurfs)
-        for cid, geom in ucells:
+    for univ in sorted(needed):
+        ucells, usurfs, _ = FILL_UNIVERSES[univ]
+        extra_surfs.extend(line for line in usurfs if line not in extra_surfs)
+        for cid, geom, uopts in ucells:
             deck['cells'].append({
                 'id': cid, 'like': None, 'blocks': [], 'mat': '0', 'geom': geom,
-                'opts': f'u={univ} imp:n,p,e,h=1', 'values': [1.0],
-                'zero': False, 'level0': False})
+                'opts': f'u={univ} imp:n,p,e,h=1 {uopts}'.strip(),
+                'values': [1.0], 'zero': False, 'level0': False})
     n_extra = len(deck['cells']) - len(level0)
     deck['imp_cards'] = [(name, toks + rng.choice([['1'] * n_extra,
                                                    ['1', f'{n_extra - 1}r']
@@ -522,6 +540,97 @@ def gen_fill_deck(rng):
                          for name, toks in deck['imp_cards']]
     deck['extra_surfs'] = extra_surfs
     return deck
+
+
+def lattice_deck(rng):
+    '''A level-0 rectangular lattice cell (LAT=1, FILL lo:hi 0:0 0:0 u ... u),
+    pitch 2 along x, of zero or non-zero importance (cell-card keyword or IMP
+    data card with shorthand), plus the outside of a large sphere. Returns
+    (text, lattice cell id, zero?, probe points).'''
+    lo = rng.choice([0, -1, -2])
+    hi = lo + rng.choice([0, 1, 2])
+    n_el = hi - lo + 1
+    zero = rng.random() < 0.6
+    sp = rng.choice(g.ZERO_SPELLINGS) if zero else rng.choice(['1', '2', '0.5'])
+    univ, (ucells, usurfs, _) = rng.choice(
+        [(u, FILL_UNIVERSES[u]) for u in (5, 6, 7)])
+    fill = f'fill={lo}:{hi} 0:0 0:0 ' + rng.choice(
+        [' '.join([str(univ)] * n_el),
+         f'{univ} {n_el - 1}r' if n_el > 1 else str(univ)])
+    mode = rng.choice(['cell', 'data', 'data'])
+    lat_opts = f'lat=1 {fill}' if rng.random() < 0.5 else f'{fill} LAT 1'
+    cid = rng.choice([1, 7, 30])
+    lines = ['C12 lattice deck']
+    n_cells = 2 + len(ucells)
+    if mode == 'cell':
+        lines.append(f'{cid} 0 -10 11 -12 13 -14 15 {lat_opts} imp:n={sp}')
+        lines.append(f'{cid + 1} 0 20 imp:n=1')
+        lines += [f'{k} 0 {geom} u={univ} imp:n=1' for k, geom, _ in ucells]
+        cards = []
+    else:
+        lines.append(f'{cid} 0 -10 11 -12 13 -14 15 {lat_opts}')
+        lines.append(f'{cid + 1} 0 20')
+        lines += [f'{k} 0 {geom} u={univ}' for k, geom, _ in ucells]
+        rest = n_cells - 1
+        cards = ['imp:n ' + sp + ' ' + rng.choice(
+            [' '.join(['1'] * rest), f'1 {rest - 1}r', f'1 {rest - 1}R'])]
+        if zero and rng.random() < 0.5:
+            cards.append('imp:p 0 ' + f'1 {rest - 1}r')
+    lines.append('')
+    lines += ['10 px 1', '11 px -1', '12 py 1', '13 py -1', '14 pz 1',
+              '15 pz -1', '20 so 100'] + usurfs
+    lines.append('')
+    lines += cards + ['nps 1']
+    points = []
+    for i in range(lo, hi + 1):
+        points += [(2 * i + 0.3, 0.55, 0.2), (2 * i - 0.35, -0.6, -0.4)]
+    return '\n'.join(lines) + '\n', cid, zero, points
+
+
+def lattice_sweep(res, n_decks, rng):
+    '''Zero-importance (and other) level-0 LAT=1 cells: nothing of a
+    zero-importance lattice may be written, and the NOTE lists the cell.
+    Swept only (develop_lattice is not in the C12 model).'''
+    import t4eval
+    for _ in range(n_decks):
+        text, cid, zero, points = lattice_deck(rng)
+        res.seen(('lattice', text), nontrivial=True)
+        res.count('lattice:' + ('zero' if zero else 'live'))
+        conv = impl.convert(text)
+        if not conv.ok or conv.text is None:
+            res.violation('impl-violation', f'lattice deck rejected: {conv.exc}: '
+                          f'{conv.msg[:150]}', {'input': {'deck': text}},
+                          found_input=True)
+            continue
+        t4 = impl.T4File(conv.text)
+        note = g.note_list(conv.stdout)
+        if (cid in note) != zero:
+            res.violation('impl-violation',
+                          f'lattice cell {cid} (zero importance: {zero}) listed '
+                          f'in the NOTE: {cid in note}', {'input': {'deck': text}},
+                          found_input=True)
+        ev = t4eval.Evaluator(t4)
+        for pnt in points:
+            try:
+                owners = ev.owners(pnt)
+            except t4eval.T4EvalError as exc:
+                res.violation('impl-violation', f'cannot evaluate the written '
+                              f'file at {pnt}: {exc}', {'input': {'deck': text}},
+                              found_input=True)
+                break
+            if zero and owners:
+                res.violation('impl-violation',
+                              f'lattice cell {cid} has importance 0 for every '
+                              f'particle but its point {pnt} lies in written '
+                              f'volume(s) {owners}', {'input': {'deck': text}},
+                              found_input=True)
+                break
+            if not zero and not owners:
+                res.violation('impl-violation',
+                              f'lattice cell {cid} has non-zero importance but '
+                              f'its point {pnt} lies in no written volume',
+                              {'input': {'deck': text}}, found_input=True)
+                break
 
 
 def oracle_conversion(deck, text):
@@ -675,49 +784,102 @@ CORPUS = [
 ]
 
 
-def corpus(res):
-    '''Every corpus deck through the whole converter (VOLU ids, NOTE, probe
-    points) and through parse() (skip list), against the hand-written answer.'''
-    for name, cells, cards, zero, *rest in CORPUS:
-        extra = rest[0] if rest else {}
-        text = corpus_deck(cells, cards, extra)
-        res.seen(('corpus', name), nontrivial=True)
-        res.count('corpus')
-        ids = [c[0] for c in cells]
-        filled = extra.get('filled', [])
-        listed_expected = sorted(zero + extra.get('universe_zero', []))
-        conv = impl.convert(text)
-        if not conv.ok or conv.text is None:
-            res.violation('impl-violation', f'corpus deck {name} rejected: '
-                          f'{conv.exc}: {conv.msg[:150]}',
+def check_zero_deck(res, name, cells, cards, zero, extra, parse=True):
+    '''One hand-described deck through the whole converter (VOLU ids, NOTE,
+    probe points) and through parse() (skip list), against the given answer.'''
+    text = corpus_deck(cells, cards, extra)
+    ids = [c[0] for c in cells]
+    filled = extra.get('filled', [])
+    listed_expected = sorted(zero + extra.get('universe_zero', []))
+    conv = impl.convert(text)
+    if not conv.ok or conv.text is None:
+        res.violation('impl-violation', f'deck {name} rejected: '
+                      f'{conv.exc}: {conv.msg[:150]}',
+                      {'input': {'deck': text}, 'expected': zero},
+                      found_input=True)
+        return
+    t4 = impl.T4File(conv.text)
+    volu = set(t4.volumes)
+    note = g.note_list(conv.stdout)
+    live = [k for k in ids if k not in zero and k not in filled]
+    if sorted(volu & set(ids)) != sorted(live) \
+            or sorted(note) != listed_expected:
+        res.violation('impl-violation',
+                      f'deck {name}: zero-importance cells {zero}; '
+                      f'VOLU {sorted(volu & set(ids))} NOTE {note}',
+                      {'input': {'deck': text}, 'expected': zero},
+                      found_input=True)
+    if all(len(c) == 2 for c in cells):
+        # no LIKE cell: pairwise disjoint regions, look at what is written
+        probes = [(c[0], k, c[0] in zero) for k, c in enumerate(cells)]
+        for cid, what in point_failures(probes, t4):
+            res.violation('impl-violation', f'deck {name}: {what}',
                           {'input': {'deck': text}, 'expected': zero},
                           found_input=True)
-            continue
-        t4 = impl.T4File(conv.text)
-        volu = set(t4.volumes)
-        note = g.note_list(conv.stdout)
-        live = [k for k in ids if k not in zero and k not in filled]
-        if sorted(volu & set(ids)) != sorted(live) \
-                or sorted(note) != listed_expected:
-            res.violation('impl-violation',
-                          f'corpus deck {name}: zero-importance cells {zero}; '
-                          f'VOLU {sorted(volu & set(ids))} NOTE {note}',
-                          {'input': {'deck': text}, 'expected': zero},
-                          found_input=True)
-        if all(len(c) == 2 for c in cells):
-            # no LIKE cell: pairwise disjoint regions, look at what is written
-            probes = [(c[0], k, c[0] in zero) for k, c in enumerate(cells)]
-            for cid, what in point_failures(probes, t4):
-                res.violation('impl-violation', f'corpus deck {name}: {what}',
-                              {'input': {'deck': text}, 'expected': zero},
-                              found_input=True)
+    if parse:
         result = g.run_impl(text, [])
         if result[0] != 'ok' or sorted(result[2]) != listed_expected:
             res.violation('impl-violation',
-                          f'corpus deck {name}: zero-importance cells {zero}; '
+                          f'deck {name}: zero-importance cells {zero}; '
                           f'parse() skip list {result[2] if result[0] == "ok" else result[1]}',
                           {'input': {'deck': text}, 'expected': zero},
                           found_input=True)
+
+
+def corpus(res):
+    for name, cells, cards, zero, *rest in CORPUS:
+        res.seen(('corpus', name), nontrivial=True)
+        res.count('corpus')
+        check_zero_deck(res, 'corpus ' + name, cells, cards, zero,
+                        rest[0] if rest else {})
+
+
+def exhaustive_decks(res, quick):
+    '''EXHAUSTIVE small domain: 3 level-0 cells, two particle types, every
+    importance vector in {0,1}^3 x {0,1}^3 (the all-zero one excepted: nothing
+    to convert), given on IMP data cards, on the cell cards, or (thorough) with
+    the second cell FILLed.'''
+    import itertools
+    k = 0
+    for imp_n in itertools.product('01', repeat=3):
+        for imp_p in itertools.product('01', repeat=3):
+            zero = [i + 1 for i in range(3) if imp_n[i] == '0' and imp_p[i] == '0']
+            if len(zero) == 3:
+                continue
+            k += 1
+            variants = []
+            if not quick or k % 3 == 0:
+                variants.append(('data', [(1, ''), (2, ''), (3, '')],
+                                 ['imp:n ' + ' '.join(imp_n),
+                                  'imp:p ' + ' '.join(imp_p)], {}))
+            if not quick or k % 3 == 1:
+                variants.append(('cell', [(i + 1, f'imp:n={imp_n[i]} imp:p={imp_p[i]}')
+                                          for i in range(3)], [], {}))
+            if not quick or k % 9 == 2:
+                variants.append(('fill', [(1, ''), (2, 'fill=5'), (3, '')],
+                                 ['imp:n ' + ' '.join(imp_n) + ' 1 1',
+                                  'imp:p ' + ' '.join(imp_p) + ' 1 1'],
+                                 {'cells': ['201 0 -90 u=5', '202 0 90 u=5'],
+                                  'surfs': ['90 px 0'], 'filled': [2]}))
+            for kind, cells, cards, extra in variants:
+                res.seen(('exhaustive', kind, imp_n, imp_p), nontrivial=True)
+                res.count('exhaustive:' + kind)
+                check_zero_deck(res, f'exhaustive {kind} n={"".join(imp_n)} '
+                                f'p={"".join(imp_p)}', cells, cards, zero, extra,
+                                parse=False)
+
+
+EXHAUSTIVE_TOKENS = ['0', '1', 'r', '2r', 'i', '2I', '0m', '2M', 'j', '1log']
+
+
+def exhaustive_expand():
+    '''Every token list  v t1 .. tk  (v in 0/1, k <= 2 quick / 3 thorough) over
+    EXHAUSTIVE_TOKENS, for tie:expand.'''
+    import itertools
+    for first in ('0', '1'):
+        for k in (1, 2, 3):
+            for tail in itertools.product(EXHAUSTIVE_TOKENS, repeat=k):
+                yield k, [first] + list(tail)
 
 
 ALL_ZERO = '''all cells of zero importance
@@ -834,6 +996,7 @@ def conversion_sweep(res, rng, n_decks, n_guard):
         res.count('conv-mode:' + deck['mode'] + (':guard' if guard else '')
                   + (':fill' if fill else ''))
         if fill:
+            res.count('conv-fill:nested', int(deck['nested']))
             res.count('conv-fill:zero-importance-filled-cells',
                       sum(1 for c in deck['cells']
                           if c.get('filled') and c['zero']))
@@ -858,7 +1021,7 @@ def conversion_sweep(res, rng, n_decks, n_guard):
                     pairs = []
                     for vid in t4.vol_order:
                         vol = t4.volumes[vid]
-                        m = re.fullmatch(r'\((\d+), (\d+)\)', vol['comment'].strip())
+                        m = re.search(r'\((\d+), (\d+)\)$', vol['comment'].strip())
                         if m and not vol['fictive']:
                             pairs.append((int(m.group(1)), int(m.group(2))))
                     fill_cases.append(cpair(
@@ -934,10 +1097,13 @@ def run(res, tier, seed, proofs_ok):
     with cov:
         corpus(res)
         all_zero_deck(res)
-        expand_ties(res, rng, 300 if quick else 4000, 200 if quick else 3000)
-        parse_ties(res, rng, 300 if quick else 3000, 200 if quick else 1500)
+        exhaustive_decks(res, quick)
+        expand_ties(res, rng, 300 if quick else 3000, 200 if quick else 2000,
+                    2 if quick else 3)
+        parse_ties(res, rng, 250 if quick else 2000, 150 if quick else 1000)
     coverage_obligation(res, cov)
-    conversion_sweep(res, rng, 250 if quick else 2500, 40 if quick else 250)
+    lattice_sweep(res, 30 if quick else 150, rng)
+    conversion_sweep(res, rng, 250 if quick else 1800, 40 if quick else 200)
 
 
 def coverage_obligation(res, cov):
